@@ -246,7 +246,8 @@ class Run:
         if explain:
             return None, None, None, r
         if not m:
-            raise MachineryError("trace validation of %s produced no verdict:\n%s" % (trace_path, tail(r["out"], 50)))
+            head = "\n".join(x[:300] for x in r["out"].splitlines()[:25])
+            raise MachineryError("trace validation of %s produced no verdict:\n%s\n...\n%s" % (trace_path, head, tail(r["out"], 25)))
         hwm, n = int(m.group(1)), int(m.group(2))
         accepted = hwm == n + 1 and r["clean"]
         if not accepted and hwm == n + 1:
@@ -280,7 +281,7 @@ class Run:
             lines = open(path).read().splitlines()
             if not lines:
                 continue
-            nhist = sum(1 for x in lines if x.startswith('{"case"') or '"ev":"Reset"' in x[:200])
+            nhist = sum(1 for x in lines if is_reset(x))
             found = 0
             while True:
                 if found == 0 and job["trace"] in first:
@@ -508,7 +509,9 @@ def tail(s, n=30):
 
 
 def is_reset(line):
-    return '"ev":"Reset"' in line[:400] or ('"ev": "Reset"' in line[:400])
+    # keys are sorted by the harness's JSON encoder, so "ev" may sit behind large fields: look at the whole line,
+    # but only at top-level position (a nested record never has "ev":"Reset")
+    return '"ev":"Reset"' in line or '"ev": "Reset"' in line
 
 
 def split_histories(lines):
